@@ -9,7 +9,9 @@
                               TestCorrect, ExplainCorrect, QueryCorrect + structural ones; every completed sequence is emitted
  -> harness/drivers/c17.py    replays the sequences on the real CongClosure (full record projection, test on all pairs, explain on
                               all equal pairs) and on CongClosureHOL (f(x,y) = F x y; theorem run through theory.check_proof), plus
-                              seeded random curried-term scenarios (<= 8 constants, depth <= 3) and UnionFind union sequences
+                              seeded random curried-term scenarios (<= 8 constants, depth <= 3), UnionFind union sequences, and the
+                              systematic family "edges of one path through 6-7 constants merged in every order" (deep proof-forest
+                              paths on both sides of a merge; exhaustive from TLC in thorough: C17_CongCImpl_chain.cfg)
  T  spec/C17_CongCTrace.tla   TLC evaluates test <=> Closure, Explains(used), theorem/hypotheses clauses on every event, and compares
                               the projected record with the I specification's run of the same sequence (divergence only)
 """
@@ -69,7 +71,8 @@ def run(rep, tier):
                 "ones) of the implementation-level specification, one PropagateOne per pending equation, with test/explain "
                 "queries between merges; one behaviour per orbit of constant renaming (SYMMETRY), replayed under a seeded renaming. "
                 "Every completed sequence is an event of the real CongClosure (and, sampled, of CongClosureHOL); random curried-term "
-                "scenarios and union sequences are added. Non-trivial = an event on which the real code answered test on all pairs / "
+                "scenarios, union sequences and path-shaped constant-equation families (all 120 orders of the 5 edges of a path through 6 "
+                "constants, seeded orientations; 7 constants sampled) are added. Non-trivial = an event on which the real code answered test on all pairs / "
                 "explained / proved and the Closure clause was evaluated; distinct by (kind, merge history or scenario step)."
                 % ("3 over 3 constants" if quick else "3 over 3 constants and over 4 constants (plus simulation: 7 merges over 6 constants, 6 over 3)"))
     rep.assumptions = ["TLC/SANY and the CommunityModules (Json, CSV, IOUtils); CPython",
@@ -113,6 +116,12 @@ def run(rep, tier):
                 return
             require(_nlines(v2) > 20000, "C17_CongCImpl_wide.cfg emitted too few vectors")
             extra.append(("wide", v2, 0, 0))
+            v5 = wd / "vectors_chain.csv"
+            r = _mc(rep, "C17_CongCImpl", "C17_CongCImpl_chain.cfg", wd, vec=v5, workers=3, timeout=7200)
+            if r.violated:
+                return
+            require(_nlines(v5) == 3840, "C17_CongCImpl_chain.cfg: expected 5! * 2^5 vectors, got %d" % _nlines(v5))
+            extra.append(("chain", v5, 0, 0))
             for name, cfg, num in (("sim", "C17_CongCImpl_sim.cfg", 2500), ("sim3", "C17_CongCImpl_sim3.cfg", 2500)):
                 v3 = wd / ("vectors_%s.csv" % name)
                 r = tlc("C17_CongCImpl", cfg, wd=wd / "mc", simulate="num=%d" % num, depth=100, seed_=seed(),
@@ -154,13 +163,16 @@ def run(rep, tier):
             ("c17", ["holrand", 100 if quick else 2500, wd / "holrand.ndjson", sd], None),
             ("c17", ["corerand", 200 if quick else 3000, wd / "corerand.ndjson", sd], None),
             ("c17", ["uf", vec, 100 if quick else 0, 120 if quick else 3000, wd / "uf.ndjson", sd], None)]
-    traces = ["core", "hol", "holrand", "corerand", "uf"]
+    # systematic path-shaped constant-equation families (deep proof-forest paths: 6-7 constants, 5-6 merges), raw class and wrapper
+    jobs.append(("c17", ["chains", wd / "chain_core.ndjson", wd / "chain_hol.ndjson", sd, 4, 150 if quick else 1500, 100 if quick else 400], None))
+    traces = ["core", "hol", "holrand", "corerand", "uf", "chain_core", "chain_hol"]
     for name, vf, mx, every in extra:
-        jobs.append(("c17", ["core", vf, wd / ("core_%s.ndjson" % name), sd, mx, every, 1 if name in ("wide", "c4") else 0], None))
+        jobs.append(("c17", ["core", vf, wd / ("core_%s.ndjson" % name), sd, mx, every, 1 if name in ("wide", "c4", "chain") else 0], None))
         traces.append("core_" + name)
     if not quick:
         jobs.append(("c17", ["hol", wd / "vectors_wide.csv", wd / "hol_wide.ndjson", sd, 3000], None))
-        traces.append("hol_wide")
+        jobs.append(("c17", ["hol", wd / "vectors_chain.csv", wd / "hol_chainx.ndjson", sd, 1200], None))
+        traces += ["hol_wide", "hol_chainx"]
     with _Phase(rep, "drivers"):
         run_drivers_parallel(jobs, max_workers=2)
     # ------------------------------------------------------------------ code -> spec: every event judged by TLC
@@ -206,9 +218,12 @@ def run(rep, tier):
     hol_hyp = sum(1 for e in hol_all for x in e["explains"] if x["outcome"] == "ok" and x["h"])
     hol_gap = sum(1 for e in hol_all for x in e["explains"] if x["outcome"] == "ok" and x["gaps"])
     big = sum(1 for e in events["holrand"] if len(e["U"]) >= 20)
+    deep = sum(1 for e in events["chain_core"] if any(len(x[3]) >= 4 for x in e["explains"]))
+    deep_hol = sum(1 for e in events["chain_hol"] for x in e["explains"] if x["outcome"] == "ok" and len(x["h"]) + len(x["gaps"]) >= 4)
     rep.notes["counts"] = {"core_events": len(core), "core_explanations_using_f_equations": n_f_expl, "core_lazy_add_var": n_lazy,
                            "hol_theorems_checked": hol_ok, "with_hypotheses": hol_hyp, "with_gaps": hol_gap,
-                           "holrand_events_with_20+_subterms": big, "uf_events": len(events["uf"])}
+                           "holrand_events_with_20+_subterms": big, "uf_events": len(events["uf"]),
+                           "chain_events_with_explanations_of_4+_equations": deep, "chain_hol_theorems_from_4+_equations": deep_hol}
     tr = rep.notes["traces"]
     if not rep.violations:
         # vacuity guards apply to a run that reports no violation (a run with violations exits 1 whatever was covered)
@@ -216,6 +231,8 @@ def run(rep, tier):
         require(n_f_expl >= 500 and n_lazy >= 1000, "C17: explanations through congruence / lazy constants not exercised")
         require(hol_ok >= 300 and hol_hyp >= 50 and hol_gap >= 50 and big >= 20, "C17: too few HOL explanations examined %s" % rep.notes["counts"])
         require(tr["uf"]["nontrivial"] >= 50 and tr["core_c4"]["nontrivial"] >= 150, "C17: too few union-find / 4-constant events examined")
+        require(tr["chain_core"]["nontrivial"] >= 600 and deep >= 300 and deep_hol >= 300,
+                "C17: deep proof-forest paths not exercised %s" % rep.notes["counts"])
     # ------------------------------------------------------------------ binding self-tests: corrupt one recorded field
     bad = {"TestComplete": [], "TestSound": [], "ExplainEntails": [], "ExplainMerged": [], "HolTest": [], "HolStates": [], "HolHyps": [],
            "UfPartition": []}
